@@ -7,7 +7,7 @@
    every fault pattern ([OFlush shmok qfull], [OClose qfull]), every schedule of writers, the
    receiving event loop and the send loop (one shared access per step). *)
 From Coq Require Import List ZArith Lia Bool Arith.
-From Shm Require Import Gen.Consts Model.Wakeup Model.Mux Proofs.MuxProofs.
+From Shm Require Import Gen.Consts Model.Wakeup Model.Mux Proofs.MuxProofs Proofs.MuxOrderProofs.
 Import ListNotations.
 Open Scope nat_scope.
 
@@ -35,13 +35,6 @@ Print Assumptions C07_transport_fifo.
 Definition C07_order_full : Prop :=
   forall progs sched s, ordered s (mrun sched (minit progs)) = true.
 
-(* witness (a): the close element travels through the queue and overtakes fallback data on the socket *)
-Theorem C07_refuted_close_overtakes_fallback_data :
-  let st := mrun wit_a_sched (minit wit_a_progs) in
-  seen 0 st = [DData 0; DEnd; DData 1] /\ sent 0 st = [DData 0; DData 1; DEnd] /\ ordered 0 st = false.
-Proof. exact wit_a. Qed.
-Print Assumptions C07_refuted_close_overtakes_fallback_data.
-
 (* witness (b): markWorking is published before the polling event is written; a fallback event of another
    writer slips in between and its stream is reordered *)
 Theorem C07_refuted_fallback_overtakes_unpublished_wakeup :
@@ -50,9 +43,30 @@ Theorem C07_refuted_fallback_overtakes_unpublished_wakeup :
 Proof. exact wit_b. Qed.
 Print Assumptions C07_refuted_fallback_overtakes_unpublished_wakeup.
 
+(* inside the same window the end mark of a stream that switched transport is overtaken as well *)
+Theorem C07_refuted_end_mark_inside_the_same_window :
+  let st := mrun wit_e_sched (minit wit_e_progs) in
+  seen 1 st = [DData 1; DEnd; DData 0] /\ sent 1 st = [DData 0; DData 1; DEnd] /\ ordered 1 st = false.
+Proof. exact wit_e. Qed.
+Print Assumptions C07_refuted_end_mark_inside_the_same_window.
+
 Theorem C07_refuted : ~ C07_order_full.
 Proof. exact order_refuted. Qed.
 Print Assumptions C07_refuted.
+
+(* ORDER, partial — the strongest form, for ALL streams including those that switch from the queue to the
+   socket, and for all fault patterns: in every run that never hands an item to the socket path
+   (writeFallback / close through the socket) while a won markWorking has not yet produced its polling
+   event, every stream is delivered in order with its end mark last.  The hypothesis is exactly the absence
+   of the window of the known defect C07:fallback-overtakes-unpublished-wakeup; the former defect
+   C07:close-overtakes-fallback-data (close element through the queue while the stream's data is on the
+   socket) is gone: with the repaired close() its witness history satisfies this hypothesis and is
+   delivered in order (C07_regression_close_follows_fallback_data below). *)
+Theorem C07_partial_no_unpublished_wakeup_window : forall progs sched,
+  no_window sched (minit progs) = true ->
+  forall s, ordered s (mrun sched (minit progs)) = true.
+Proof. exact order_without_window. Qed.
+Print Assumptions C07_partial_no_unpublished_wakeup_window.
 
 (* ORDER, partial: for every schedule and fault pattern in which all items of stream s (data and
    close) travel through ONE transport v — only the queue, or only the socket (fallback from the first
@@ -64,6 +78,14 @@ Theorem C07_partial_single_transport : forall progs sched s v,
   ordered s st = true.
 Proof. exact single_transport_ordered. Qed.
 Print Assumptions C07_partial_single_transport.
+
+(* regression of the repaired defect (a): m0 through the queue, m1 through the socket, close — now through
+   the socket behind m1; the history contains no window and is delivered in order *)
+Example C07_regression_close_follows_fallback_data :
+  let st := mrun wit_a_sched (minit wit_a_progs) in
+  no_window wit_a_sched (minit wit_a_progs) = true /\
+  seen 0 st = [DData 0; DData 1; DEnd] /\ map snd (flog st) = [VQ; VS; VS] /\ ordered 0 st = true.
+Proof. vm_compute. repeat split. Qed.
 
 (* non-vacuity: two streams, stream 0 only through the queue, stream 1 only through the socket,
    interleaved; both satisfy the hypothesis of the partial theorem and are fully delivered *)
